@@ -64,6 +64,16 @@ func engineCases(g *Gen, n int, taint, hostile bool) []*Case {
 			}
 		}
 	}
+	// every value of the enumerated payloads once (each gRPC code incl. OK, a few HTTP codes incl. 0),
+	// outermost and in the middle of a chain: a layer printed differently for one value only
+	for code := 0; code <= 16; code++ {
+		recs = append(recs, g.node("grpc", nil, []int{code}, g.LeafOp("new")),
+			g.WrapOp("wrap", g.node("grpc", nil, []int{code}, g.LeafOp("goerr")), 2))
+	}
+	for _, code := range []int{0, 200, 404, 500} {
+		recs = append(recs, g.node("http", nil, []int{code}, g.LeafOp("new")),
+			g.WrapOp("hint", g.node("http", nil, []int{code}, g.LeafOp("goerr")), 2))
+	}
 	if hostile {
 		mk(n / 2)
 		g.hostile = true
@@ -404,6 +414,18 @@ func propCases(res *Result, prop, tier string, g *Gen, n int, batch int) []*Case
 	if prop == "C10" && batch == 0 {
 		oracleC10Nil(res)
 	}
+	if prop == "C08" && batch == 0 {
+		oracleC08NonComparable(res)
+	}
+	if prop == "C07" && batch == 0 {
+		oracleC07EmptyOverride(res)
+	}
+	if prop == "C14" && batch == 0 {
+		oracleC14TypedNil(res)
+	}
+	if prop == "C11" && batch == 0 {
+		oracleC11Source(res)
+	}
 	switch prop {
 	case "C19":
 		cases = append(cases, annotCases(g, n)...)
@@ -413,6 +435,10 @@ func propCases(res *Result, prop, tier string, g *Gen, n int, batch int) []*Case
 		cases = append(cases, engineCases(g, n/3, true, prop != "C12")...)
 		if prop == "C15" && batch == 0 {
 			cases = append(cases, emptyStackCases()...)
+			cases = append(cases, deepStackCases()...)
+		}
+		if prop == "C12" && batch == 0 {
+			cases = append(cases, safeArgCases(g)...)
 		}
 		if prop == "C06" && batch == 0 {
 			cases = append(cases, decodedHostileCases()...)
